@@ -34,7 +34,7 @@ N = 2001
 
 def generate(tier, seed):
     rng = np.random.default_rng([seed, 19])
-    n = {"quick": 30, "thorough": 300}[tier]
+    n = {"quick": 30, "thorough": 3000}[tier]
     cases = []
     mus = [0.0, 1.5, -3.0]
     vars_ = [0.1, 1.0, 2.3]
